@@ -191,7 +191,56 @@ def r5(ctx):
     ctx.check("backtest", not bad, "nothing mutates what is reached through the shared constants", got=bad, key="no-mutation")
 
 
+def r6(ctx):
+    """the (non-audited) runners used by backtests process every event taken from the feed, in feed order, until a
+    terminal audit or the end of the feed"""
+    n = 0
+    for path, label in (("barter::engine::run::async_run::{closure#0}", "async_run"), ("barter::engine::run::sync_run", "sync_run")):
+        b = ctx.body(ctx.find(path=path))
+        calls = b.real_calls()
+        P = [(bi, t, tm) for bi, t, tm in calls if mir.short(tm[1]) == "engine::process_with_audit"]
+        ok = len(P) == 1
+        ctx.check(label, ok, "one processing site", got=len(P), key="shape")
+        if not ok:
+            continue
+        pb, pt, ptm = P[0]
+        ev = render(ptm[2][1])
+        ctx.check(label, render(ptm[2][0]) in ("engine", "^engine") and ev.endswith(".as:Some.0") and ("next(feed)" in ev or "next(^feed)" in ev),
+                  "the event processed is the item just taken from the feed", got=render(ptm)[:160], key="item")
+        heads = {x for x in b.reachable if b.blocks[x]["term"]["t"] == "false_unwind"}
+        starts = []
+        for x in b.reachable:
+            tt = b.blocks[x]["term"]
+            if tt["t"] == "switch":
+                for lab, y in b.succ[x]:
+                    a = b.edge_atom(x, lab)
+                    if a[0] == "is" and a[2] == frozenset(["Some"]) and ("next(feed)" in render(a[1]) or "next(^feed)" in render(a[1])):
+                        starts.append(y)
+        skipped = set()
+        for y in starts:
+            seen, stack = set(), [y]
+            while stack:
+                z = stack.pop()
+                if z in seen or z == pb:
+                    continue
+                seen.add(z)
+                if z in heads or z == mir.EXIT:
+                    skipped.add(z)
+                    continue
+                stack.extend(w for _, w in b.succ[z])
+        n += 1
+        ctx.check(label, bool(starts) and not skipped, "no event taken from the feed is skipped (every path from `Some(event)` passes process_with_audit)",
+                  got=sorted(skipped), key="none-skipped")
+        # after processing, the loop continues unless the audit is terminal
+        g_loop = [a for x in heads for conj in b.guard(x) for a in conj]
+        term = [(bi, t, tm) for bi, t, tm in calls if tm[1].endswith("Terminal::is_terminal")]
+        ctx.check(label, len(term) == 1 and render(term[0][2][2][0]) == render(ptm) + ".event",
+                  "the only reason to stop before the feed ends is a terminal audit of the event just processed", got=[render(x[2])[:120] for x in term], key="stop")
+    ctx.floor("runners", n, 2)
+
+
 RULES = [
+    ("R6", "the non-audited runners process every feed item in order until a terminal audit / end of feed", r6),
     ("R1", "drain before shutdown: Shutdown sent only after the market forwarder completed; engine awaited afterwards", r1),
     ("R2", "backtest() wiring: own clock/execution/engine from shared constants, own strategy/risk, own summary", r2),
     ("R3", "MarketDataInMemory::stream yields events[i] for i in 0..len in order", r3),
